@@ -187,6 +187,12 @@ def run(P, R, L):
              "compaction results are installed only when no compaction error was recorded")
     K.ord3_flush(P, R, L)
     K.ord3_tables(P, R, L)
+    R.clause("ERR-2", "stored iterator errors are consulted before compaction results are installed / output tables finalized")
+    K.err2_iterator_status(P, R, L)
+    R.clause("GRD-5", "a WAL / table / manifest is queued for deletion only under its liveness predicate (a wrongly deleted WAL turns a later "
+             "flush failure into lost acknowledged writes)")
+    from .c11 import grd5
+    grd5(P, R, L)
     R.clause("PAIR-2", "followers receive the group's result before being notified; the leader returns the same result")
     K.pair2_group_result(P, R, L)
     K.ord2_write_ahead(P, R, L, rule="ORD-2")
